@@ -305,6 +305,9 @@ def apiOp (rs : Regs) (dst name : String) (args : List String) : Option Regs := 
       | "mul" => do
           let k := scalarV (← (← args[0]?).toInt?); let q ← g (← args[1]?)
           pure (Bn256Code.pointG1_mul k q, Jac.curveMul q k)
+      | "mulg" => do
+          let k := scalarV (← (← args[0]?).toInt?)
+          pure (Bn256Code.pointG1_mul_nil_q curveGen k, Jac.curveMul curveGen k)
       | "add" => do
           let a ← g (← args[0]?); let b ← g (← args[1]?)
           pure (Bn256Code.pointG1_add recv a b, Jac.add recv a b)
@@ -337,6 +340,9 @@ def apiOp (rs : Regs) (dst name : String) (args : List String) : Option Regs := 
         | "mul" => do
             let k := scalarV (← (← args[0]?).toInt?); let q ← g (← args[1]?)
             pure (Bn256Code.pointG2_mul k q, Jac.twistMul q k)
+        | "mulg" => do
+            let k := scalarV (← (← args[0]?).toInt?)
+            pure (Bn256Code.pointG2_mul_nil_q twistGen k, Jac.twistMul twistGen k)
         | "add" => do
             let a ← g (← args[0]?); let b ← g (← args[1]?)
             pure (Bn256Code.pointG2_add recv a b, Jac.add recv a b)
@@ -357,6 +363,9 @@ def apiOp (rs : Regs) (dst name : String) (args : List String) : Option Regs := 
       | "mul" => do
           let k := scalarV (← (← args[0]?).toInt?); let q ← g (← args[1]?)
           pure (Bn256Code.pointGT_mul k q, q.exp k)
+      | "mulg" => do
+          let k := scalarV (← (← args[0]?).toInt?)
+          pure (Bn256Code.pointGT_mul_nil_q gfP12Gen k, gfP12Gen.exp k)
       | "add" => do
           let a ← g (← args[0]?); let b ← g (← args[1]?)
           pure (Bn256Code.pointGT_add a b, a.mul b)
@@ -423,6 +432,9 @@ def k1Case (op : String) (args : List String) : String := orBad do
   | "mul" => do
       let k ← (← args[3]?).toInt?
       kyUn g1Hex (fun _ a => Bn256Code.pointG1_mul (scalarV k) a) (fun _ a => Jac.curveMul a (scalarV k)) (← args[0]?) (← g1Of (← args[1]?)) (← g1Of (← args[2]?))
+  | "mulu" => do  -- a mod.Int over a WIDER modulus: V = k, not reduced modulo the group order
+      let k ← (← args[3]?).toNat?
+      kyUn g1Hex (fun _ a => Bn256Code.pointG1_mul k a) (fun _ a => Jac.curveMul a k) (← args[0]?) (← g1Of (← args[1]?)) (← g1Of (← args[2]?))
   | "mulnil" => do
       let _ ← g1Of (← args[0]?)
       let k ← (← args[1]?).toInt?
@@ -440,6 +452,9 @@ def k2Case (op : String) (args : List String) : String := orBad do
   | "mul" => do
       let k ← (← args[3]?).toInt?
       kyUn g2Hex (fun _ a => Bn256Code.pointG2_mul (scalarV k) a) (fun _ a => Jac.twistMul a (scalarV k)) (← args[0]?) (← g2Of (← args[1]?)) (← g2Of (← args[2]?))
+  | "mulu" => do
+      let k ← (← args[3]?).toNat?
+      kyUn g2Hex (fun _ a => Bn256Code.pointG2_mul k a) (fun _ a => Jac.twistMul a k) (← args[0]?) (← g2Of (← args[1]?)) (← g2Of (← args[2]?))
   | "mulnil" => do
       let _ ← g2Of (← args[0]?)
       let k ← (← args[1]?).toInt?
@@ -459,6 +474,9 @@ def ktCase (op : String) (args : List String) : String := orBad do
   | "mul" => do
       let k ← (← args[3]?).toInt?
       kyUn fp12Hex (fun _ a => Bn256Code.pointGT_mul (scalarV k) a) (fun _ a => a.exp (scalarV k)) (← args[0]?) (← gtOf (← args[1]?)) (← gtOf (← args[2]?))
+  | "mulu" => do
+      let k ← (← args[3]?).toNat?
+      kyUn fp12Hex (fun _ a => Bn256Code.pointGT_mul k a) (fun _ a => a.exp k) (← args[0]?) (← gtOf (← args[1]?)) (← gtOf (← args[2]?))
   | "mulnil" => do
       let _ ← gtOf (← args[0]?)
       let k ← (← args[1]?).toInt?
